@@ -108,6 +108,11 @@ def build_problem(case: dict) -> dict:
                 Qt = M.T @ M * case["qscale"]
                 Qt[ns:, ns:] += _spd(rs, nc, min(condb, 1e3), case["qscale"])
                 Q[b, t] = (Qt + Qt.T) / 2
+            elif case.get("qstyle") == "eye":        # EXACT TIE: all eigenvalues equal, Q_t = s I bit for bit
+                Q[b, t] = np.eye(n) * case["qscale"]
+            elif case.get("qstyle") == "psd0":       # EXACT TIE: state block and cross terms exactly zero
+                Q[b, t] = 0.0
+                Q[b, t][ns:, ns:] = _spd(rs, nc, min(condb, 1e3), case["qscale"])
             else:
                 Q[b, t] = _spd(rs, n, condb, case["qscale"])
             if case["qshape"] in ("p2", "q3p2") and t > 0:
@@ -121,6 +126,21 @@ def build_problem(case: dict) -> dict:
             p[b] *= reg_m[b % 3]
             if not shared:
                 c[b] *= reg_m[b % 3]
+    # SIGN PATTERNS of the affine data: tests of "all zero" written as max()==0 / sum()==0 differ exactly here
+    sp = case.get("signpat")
+    if sp:
+        def pat(a):
+            a = np.abs(a) if sp == "nonneg" else -np.abs(a)
+            if sp == "nonpos0":                    # non-positive with exact zeros: max() == 0 although the array is not zero
+                flat = a.reshape(-1, a.shape[-1])
+                flat[:, 0] = 0.0
+            return a
+        p, x0, c = pat(p), pat(x0), pat(c)
+        if case["c1"] != "rand" and case["sys"] != "ltvc":
+            c = c * 0.0
+    if case.get("dup"):                            # EXACT TIE: identical batch items
+        for arr in (A, Bm, c, Q, p, x0):
+            arr[1:] = arr[:1]
     dt = getattr(torch, case["dtype"])
     rnd = lambda a: torch.tensor(a, dtype=torch.float64).to(dt).to(torch.float64).numpy()
     Qr = rnd(Q)
@@ -140,6 +160,12 @@ def nominal(case: dict, prob: dict, spec, prev_u=None):
     kind, scale, seed = spec if isinstance(spec, (list, tuple)) else ("rand", 1.0, 0)
     rs = np.random.RandomState((case["data_seed"] + 7919 * (seed + 1)) % (2 ** 32))
     u = rs.standard_normal((Bn, T, nc)) * scale
+    if case.get("signpat"):
+        u = np.abs(u) if case["signpat"] == "nonneg" else -np.abs(u)
+        if case["signpat"] == "nonpos0":
+            u[..., 0] = 0.0
+    if case.get("dup"):
+        u[1:] = u[:1]
     dt = getattr(torch, case["dtype"])
     return torch.tensor(u, dtype=torch.float64).to(dt).to(torch.float64).numpy()
 
@@ -222,6 +248,10 @@ def make_system(case: dict, prob: dict):
     D = torch.zeros(Bn, ns, nc, dtype=dt)
     c1 = None if case["c1"] == "none" else T_(prob["c"][:, 0])
     c2 = torch.zeros(Bn, ns, dtype=dt) if case.get("c2") else None
+    if case.get("subclass") == "MyLTI":
+        return user_classes()["MyLTI"](A, Bm, C, D, c1, c2)
+    if case.get("subclass") == "ShiftLTI":       # prob["c"] is the system's OWN constant: the buffer holds half of it
+        return user_classes()["ShiftLTI"](A, Bm, C, D, None if c1 is None else c1 / 2, c2)
     return P.module.LTI(A, Bm, C, D, c1, c2)
 
 
@@ -238,7 +268,8 @@ def make_lqr(case: dict, prob: dict, system):
         p = p[:, 0]
         if case.get("qexpand"):
             p = p.unsqueeze(1).expand(-1, case["T"], -1)
-    return P.module.LQR(system, Q, p, case["T"])
+    cls = user_classes()["MyLQR"] if case.get("subclass") else P.module.LQR
+    return cls(system, Q, p, case["T"])
 
 
 _SIN_CLASS = []
@@ -368,6 +399,7 @@ class Ref:
             gt = self.Q[t] @ tau + self.p[t]
             gr[t] = gt[ns:] + self.B[t].T @ lam
             lam = gt[:ns] + self.A[t].T @ lam
+        self.lam0 = lam          # costate at t = 0 = d(optimal cost)/d(x_init) when u is the optimum (envelope theorem)
         return gr
 
     def grad_scale(self, u):
@@ -384,6 +416,7 @@ class Ref:
             gt = np.abs(self.Q[t]) @ tau + np.abs(self.p[t])
             sg[t] = gt[ns:] + np.abs(self.B[t]).T @ lam
             lam = gt[:ns] + np.abs(self.A[t]).T @ lam
+        self.lam0_abs = lam        # magnitude of the terms summed in the costate at t = 0
         return sg, xa
 
 
@@ -556,6 +589,8 @@ def refresh_from_system(case: dict, prob: dict, system) -> dict:
     else:
         new["A"], new["B"] = A[:, None].copy(), Bm[:, None].copy()
         new["c"] = np.zeros_like(prob["c"]) if c1 is None else c1.detach().double().numpy()[:, None].copy()
+        if case.get("subclass") == "ShiftLTI":     # the system's own constant input is twice its buffer
+            new["c"] = 2.0 * new["c"]
     return new
 
 
@@ -643,12 +678,12 @@ def expected_iterations(costs, steps: int, patience: int, decreasing: float, tol
     last, pc, frag = float("inf"), 0, False
     for i, c in enumerate(costs):
         stop = c < tol or (i + 1) >= max_steps
-        frag |= abs(c - tol) <= 1e-9 * (1 + abs(c))
+        frag |= 0 < abs(c - tol) <= 1e-9 * (1 + abs(c))        # an EXACT tie is decided identically everywhere
         with np.errstate(all="ignore"):
             ratio = (np.float64(last) - np.float64(c)) / np.float64(c)
         slow = bool(ratio < decreasing)
         if np.isfinite(ratio):
-            frag |= abs(float(ratio) - decreasing) <= 1e-7 * (1 + abs(decreasing))
+            frag |= 0 < abs(float(ratio) - decreasing) <= 1e-7 * (1 + abs(decreasing))
         pc = pc + 1 if slow else 0
         last = c
         if pc >= patience:
@@ -670,8 +705,8 @@ def stepper_flags(losses, max_steps: int, patience: int, decreasing: float, tol:
         with np.errstate(all="ignore"):
             ratio = (np.float64(last) - np.float64(c)) / np.float64(c)
         if np.isfinite(ratio):
-            frag |= abs(float(ratio) - decreasing) <= 1e-9 * (1 + abs(decreasing))
-        frag |= abs(c - tol) <= 1e-12 * (1 + abs(c))
+            frag |= 0 < abs(float(ratio) - decreasing) <= 1e-9 * (1 + abs(decreasing))
+        frag |= 0 < abs(c - tol) <= 1e-12 * (1 + abs(c))
         pc = pc + 1 if bool(ratio < decreasing) else 0
         last = c
         if pc >= patience:
@@ -697,3 +732,67 @@ def owns_memory(out: torch.Tensor, others) -> str:
         if isinstance(t, torch.Tensor) and t.numel() > 0 and storage_ptr(t) == po and po is not None:
             return f"shares its storage with {name}"
     return ""
+
+
+# ----------------------------------------------------------------------------- user subclasses of the shipped classes
+
+_USER = {}
+
+
+def user_classes():
+    """classes a user would derive from the shipped ones: each must behave by ITS OWN methods"""
+    if _USER:
+        return _USER
+    P = pp()
+
+    class MyLTI(P.module.LTI):
+        """same system, state_transition overridden with another spelling"""
+        def state_transition(self, state, input):
+            z = (self.A @ state.unsqueeze(-1)).squeeze(-1) + (self.B @ input.unsqueeze(-1)).squeeze(-1)
+            return z if self.c1 is None else z + self.c1
+
+    class ShiftLTI(P.module.LTI):
+        """a DIFFERENT system: the constant input is twice the stored buffer (property overridden)"""
+        @property
+        def c1(self):
+            return None if self._c1 is None else 2.0 * self._c1
+
+    class MyLQR(P.module.LQR):
+        def forward(self, x_init, dt=1, u_traj=None, u_lower=None, u_upper=None, du=None):
+            return super().forward(x_init, dt, u_traj, u_lower, u_upper, du)
+
+    class MyMPC(P.module.MPC):
+        pass
+
+    class FixedSteps(P.utils.ReduceToBason):
+        """user stepper derived from the shipped one: stop after exactly `k` steps, whatever the losses"""
+        def __init__(self, k):
+            super().__init__(steps=10 ** 6)
+            self.k = k
+
+        def step(self, loss):
+            self.steps = self.steps + 1
+            self.last = loss
+            if self.steps >= self.k:
+                self._continual = False
+
+    class DuckStepper:
+        """user stepper NOT derived from anything: the protocol MPC uses (max_steps, reset, continual, step)"""
+        def __init__(self, k):
+            self.k, self.max_steps, self.n, self.go = k, 10 ** 6, 0, True
+
+        def reset(self):
+            self.n, self.go = 0, True
+
+        def continual(self):
+            return self.go
+
+        def step(self, loss):
+            self.n += 1
+            self.go = self.n < self.k
+
+    for c_ in (MyLTI, ShiftLTI, MyLQR, MyMPC, FixedSteps, DuckStepper):
+        c_.__qualname__, c_.__module__ = c_.__name__, __name__
+        globals()[c_.__name__] = c_
+        _USER[c_.__name__] = c_
+    return _USER
